@@ -533,3 +533,99 @@ func expiredIdleWindows(rounds int) {
 	}
 	wg.Wait()
 }
+
+// silentStagger: a pipelined connection whose server has gone silent keeps
+// getting new queries from other callers (staggered in time). The liveness
+// deadline belongs to the OLDEST unanswered query: later queries must not push
+// it back, or a steady trickle of traffic keeps a dead connection alive and a
+// caller with an unbounded context waits forever. Oracle on the deadline log
+// (logical): while nothing is read, no read deadline later than "first
+// unanswered write + liveness bound" may be in force; plus bounded return.
+func silentStagger(rounds int) (finish func()) {
+	type pend struct {
+		tr    string
+		first *winCall
+		t0    time.Time
+		t     exch
+		net   *fakenet.Net
+	}
+	var mu sync.Mutex
+	var pends []pend
+	var wg sync.WaitGroup
+	for i := 0; i < rounds; i++ {
+		for _, tr := range []string{"pipe-stream", "pipe-dgram"} {
+			wg.Add(1)
+			go func(i int, tr string) {
+				defer wg.Done()
+				rep.Eval(1)
+				wc := winCase{Transport: tr, Hook: "silent-stagger", NB: 3, Rep: i}
+				caselog.Log(map[string]any{"silent_stagger": wc})
+				w := &winWorld{wc: wc, net: fakenet.NewNet(), defr: map[*fakenet.Conn]*wire.Deframer{}, wrote: map[int]*fakenet.Conn{}, wroteC: make(chan int, 64), aSeq: -1}
+				t := w.transport()
+				first := w.call(t, context.Background(), int(seqCtr.Add(1)))
+				c := w.waitWrote(first.seq, 5*time.Second)
+				if c == nil {
+					rep.Count("silent_stagger_setup_incomplete", 1)
+					t.Close()
+					return
+				}
+				t0 := time.Now()
+				// the bound for this connection: deadline armed for the first query (+ slack)
+				limit := time.Duration(0)
+				for k := 0; k < 40; k++ {
+					if d, ok := c.ReadDeadlineIn(); ok && d <= winLiveBound {
+						limit = time.Since(t0) + d + 1500*time.Millisecond
+						break
+					}
+					time.Sleep(5 * time.Millisecond)
+				}
+				if limit == 0 {
+					rep.Violation("unanswered-query-without-liveness-deadline-silent-stagger-"+tr, "a query is on the wire unanswered and no read deadline within the liveness bound is in force", map[string]any{"window": wc, "deadline_log": c.Deadlines()})
+					t.Close()
+					return
+				}
+				for k := 1; k <= wc.NB; k++ {
+					time.Sleep(time.Duration(900+100*(i%3)) * time.Millisecond)
+					ctx, cancel := context.WithTimeout(context.Background(), 300*time.Millisecond)
+					later := w.call(t, ctx, int(seqCtr.Add(1)))
+					lc := w.waitWrote(later.seq, 2*time.Second)
+					<-later.done
+					cancel()
+					if lc != c {
+						rep.Count("silent_stagger_later_query_on_another_connection", 1)
+						continue
+					}
+					// give a late arming goroutine time, then look at the deadline in force
+					time.Sleep(30 * time.Millisecond)
+					if d, ok := c.ReadDeadlineIn(); !c.IsClosed() && (!ok || time.Since(t0)+d > limit) {
+						what := "none"
+						if ok {
+							what = fmt.Sprintf("%.1f s after the first unanswered query", (time.Since(t0) + d).Seconds())
+						}
+						rep.Violation("liveness-deadline-pushed-back-by-later-query-"+tr, fmt.Sprintf("silent server: the read deadline of the connection was due %.1f s after the first unanswered query; after query #%d (sent %.1f s later) the deadline in force is %s: further traffic keeps a dead connection alive", (limit - 1500*time.Millisecond).Seconds(), k+1, time.Since(t0).Seconds(), what),
+							map[string]any{"window": wc, "deadline_log": c.Deadlines()})
+						t.Close()
+						return
+					}
+					rep.Count("silent_stagger_deadline_checks_held", 1)
+				}
+				rep.Nontrivial(fmt.Sprintf("silent-stagger|%s|%d", tr, i))
+				mu.Lock()
+				pends = append(pends, pend{tr, first, t0, t, w.net})
+				mu.Unlock()
+			}(i, tr)
+		}
+	}
+	wg.Wait()
+	return func() {
+		for _, p := range pends {
+			select {
+			case <-p.first.done:
+				rep.Count("silent_stagger_first_calls_returned", 1)
+			case <-time.After(time.Until(p.t0.Add(wSilence))):
+				rep.Violation("call-did-not-return-silent-stagger-"+p.tr, fmt.Sprintf("exchange with an unbounded context still blocked %.0f s after the server went silent (other callers kept sending)", wSilence.Seconds()), map[string]any{"transport": p.tr, "goroutines": trunc(leak.Full(), 60000)})
+			}
+			p.t.Close()
+		}
+	}
+}
